@@ -36,7 +36,7 @@
 use std::sync::atomic::{AtomicUsize, Ordering};
 
 use honeycomb_core::cmap::{CMap2, CMapBuilder, DartIdType};
-use honeycomb_kernels::grisubal::verif::{Boundary, clip_left, clip_right};
+use honeycomb_kernels::grisubal::verif::{Boundary, clip_left, clip_right, intersection_darts};
 use honeycomb_kernels::grisubal::{Clip, GrisubalError, grisubal};
 use honeycomb_kernels::remeshing::{ClassificationError, capture_geometry, classify_capture};
 use honeycomb_kernels::utils::{EdgeAnchor, FaceAnchor, VertexAnchor};
@@ -557,6 +557,44 @@ pub fn step(sess: &mut Sess, toks: &[&str]) -> Option<String> {
                 Ok(()) => "ok".into(),
                 Err(e) => gris_err(&e),
             })
+        }
+        "gids" => {
+            // gids <nk> k1 … <n> (d t | 0 nan) …: steps 2 + 3 of grisubal on the session map (hook
+            // `grisubal::verif::intersection_darts` = group_intersections_per_edge + compute_intersection_ids +
+            // insert_intersections) for the slot vector given; reply `ok id …` (one dart per slot). The keys (iteration
+            // order of the HashMap, a parameter of the model) are ignored here: the real order is whatever the HashMap does.
+            let Sess::D2(s) = sess else { return Some("bad-op".into()) };
+            let mut it = toks[1..].iter();
+            let Some(nk) = it.next().and_then(|t| t.parse::<usize>().ok()) else { return Some("bad-op".into()) };
+            for _ in 0..nk {
+                if it.next().and_then(|t| t.parse::<DartIdType>().ok()).is_none() {
+                    return Some("bad-op".into());
+                }
+            }
+            let Some(n) = it.next().and_then(|t| t.parse::<usize>().ok()) else { return Some("bad-op".into()) };
+            let nd = s.map.n_darts() as DartIdType;
+            let mut meta: Vec<(DartIdType, f64)> = Vec::with_capacity(n);
+            for _ in 0..n {
+                let (Some(d), Some(t)) = (it.next().and_then(|t| t.parse::<DartIdType>().ok()), it.next()) else {
+                    return Some("bad-op".into());
+                };
+                let t = if *t == "nan" {
+                    f64::NAN
+                } else {
+                    let Some(t) = parse_rat(t) else { return Some("bad-op".into()) };
+                    t
+                };
+                if d >= nd || (d == 0 && !t.is_nan()) {
+                    return Some("bad-op".into());
+                }
+                meta.push((d, t));
+            }
+            if it.next().is_some() {
+                return Some("bad-op".into());
+            }
+            let res = intersection_darts(&mut s.map, meta);
+            let ids: Vec<String> = res.iter().map(|d| d.to_string()).collect();
+            Some(if ids.is_empty() { "ok".into() } else { format!("ok {}", ids.join(" ")) })
         }
         "wanchor" => {
             let Sess::D2(s) = sess else { return Some("bad-op".into()) };
